@@ -850,3 +850,42 @@ mod tests {
         }
     }
 }
+
+/// Verification hooks (add-only): assemble a structure from raw parts and
+/// inspect its inventories.
+#[cfg(feature = "sux_verif")]
+impl<B, I> SelectAdapt<B, I> {
+    /// # Safety
+    /// The parts must satisfy the invariants established by the constructors.
+    pub unsafe fn verif_from_raw_parts(
+        bits: B,
+        inventory: I,
+        spill: I,
+        log2_ones_per_inventory: usize,
+        log2_ones_per_sub16: usize,
+        log2_u64_per_subinventory: usize,
+    ) -> Self {
+        Self {
+            bits,
+            inventory,
+            spill,
+            log2_ones_per_inventory,
+            log2_ones_per_sub16,
+            log2_u64_per_subinventory,
+            ones_per_inventory_mask: (1 << log2_ones_per_inventory) - 1,
+            ones_per_sub16_mask: (1 << log2_ones_per_sub16) - 1,
+        }
+    }
+
+    /// Returns (inventory, spill, log2_ones_per_inventory, log2_ones_per_sub16,
+    /// log2_u64_per_subinventory).
+    pub fn verif_raw_parts(&self) -> (&I, &I, usize, usize, usize) {
+        (
+            &self.inventory,
+            &self.spill,
+            self.log2_ones_per_inventory,
+            self.log2_ones_per_sub16,
+            self.log2_u64_per_subinventory,
+        )
+    }
+}
